@@ -97,9 +97,10 @@ inductive Op where
   /-- `model.learn(total_timesteps = total, reset_num_timesteps = reset)` -/
   | learn (total : Nat) (reset : Bool)
   /-- one vectorised environment step inside `collect_rollouts`: `stop` = the callback's `on_step`
-  returned `False`; `dones` = number of sub-environments whose episode ended; `kl` = `some j` when a
-  PPO `train()` triggered by this step is cut by the `target_kl` test after `j` optimizer steps. -/
-  | env (stop : Bool) (dones : Nat) (kl : Option Nat)
+  returned `False`; `dones` = number of sub-environments whose episode ended; `kl` = for a PPO `train()`
+  triggered by this step, one flag per minibatch in the order they are evaluated: "the approximate KL of
+  this minibatch exceeds `1.5 * target_kl`" (missing entries = `false`; `[]` when `target_kl` is `None`). -/
+  | env (stop : Bool) (dones : Nat) (kl : List Bool)
   deriving Repr, Inhabited
 
 inductive Ev where
@@ -173,19 +174,25 @@ def loopHead (s : State) : State × List Ev :=
   else
     ({ s with running := false }, [.finish s.num false])
 
+/-- index of the first `true` -/
+def firstTrue : List Bool → Option Nat
+  | [] => none
+  | true :: _ => some 0
+  | false :: t => (firstTrue t).map (· + 1)
+
 /-- `(optimizer steps, _n_updates increment)` of one on-policy `train()`.
-A2C: one step. PPO: `n_epochs` passes over the minibatches; with `kl = some j`, `j < full`, the KL test
-broke out after `j` optimizer steps, in epoch `j / nb` (which is still counted in `_n_updates`). -/
-def onTrainCounts (nEnvs : Nat) (c : OnCfg) (kl : Option Nat) : Nat × Nat :=
+A2C: one step. PPO: `n_epochs` passes over the `nb` minibatches; the first minibatch (index `j`, counted over
+the epochs) whose KL flag is set ends the call *before* its optimizer step: `j` steps were made, and the epoch
+`j / nb` in which it happened is still counted in `_n_updates`. -/
+def onTrainCounts (nEnvs : Nat) (c : OnCfg) (kl : List Bool) : Nat × Nat :=
   if c.a2c then (1, 1)
   else
-    match kl with
-    | some j =>
-      if j < ppoFull nEnvs c then (j, j / nBatches (c.nSteps * nEnvs) c.batch + 1) else (ppoFull nEnvs c, c.nEpochs)
+    match firstTrue (kl.take (ppoFull nEnvs c)) with
+    | some j => (j, j / nBatches (c.nSteps * nEnvs) c.batch + 1)
     | none => (ppoFull nEnvs c, c.nEpochs)
 
 /-- `train()` of PPO / A2C: learning rate from the current progress, then the optimizer steps. -/
-def trainOn (nEnvs : Nat) (c : OnCfg) (s : State) (kl : Option Nat) : State × List Ev :=
+def trainOn (nEnvs : Nat) (c : OnCfg) (s : State) (kl : List Bool) : State × List Ev :=
   let k := onTrainCounts nEnvs c kl
   let s' := { s with nUpdates := s.nUpdates + k.2, optSteps := s.optSteps + k.1 }
   (s', [.train s.num k.1 0 s.progress s'.nUpdates])
@@ -201,7 +208,7 @@ def trainOff (nEnvs : Nat) (c : OffCfg) (s : State) : State × List Ev :=
   else (s, [])
 
 /-- One vectorised environment step and everything the library does until the next one. -/
-def envStep (cfg : Cfg) (s : State) (stop : Bool) (dones : Nat) (kl : Option Nat) : State × List Ev :=
+def envStep (cfg : Cfg) (s : State) (stop : Bool) (dones : Nat) (kl : List Bool) : State × List Ev :=
   -- self.num_timesteps += env.num_envs ; callback.on_step()
   let s1 := { s with num := s.num + cfg.nEnvs }
   let evStep := Ev.step s1.num s1.progress
@@ -339,6 +346,6 @@ def exTD3 : Cfg :=
   { nEnvs := 1, kind := .off { freq := 1, unit := .episode, gradSteps := 3, learningStarts := 2, policyDelay := 2 } }
 
 /-- `k` environment steps without stop request, without episode end, without KL exit -/
-def quiet (k : Nat) : List Op := List.replicate k (.env false 0 none)
+def quiet (k : Nat) : List Op := List.replicate k (.env false 0 [])
 
 end SB3Verif.Learn
